@@ -303,6 +303,18 @@ def main(tier: str) -> int:
         for k in want:
             if got.get(k) != want[k]:
                 run.violation({"mode": "hash-seed", "workload": k}, f"bytes of workload {k} differ in a process with PYTHONHASHSEED={hs}", {"seed": hs, "workload": k})
+    # each workload ALONE in a fresh process (no other stream has ever existed there) vs. this process, where everything above has happened
+    here = solo.digests()
+    for k in list(solo.workloads()) + ["namespaces"]:
+        p = subprocess.run([sys.executable, "-m", "harness.solo", k], cwd=env.VERIF, env=dict(os.environ), capture_output=True, text=True, timeout=120)
+        runs += 1
+        try:
+            alone = json.loads(p.stdout)[k]
+        except (json.JSONDecodeError, KeyError):
+            env.machinery_failure(f"C12: solo subprocess for {k} failed: {p.stderr[-300:]}")
+        if alone != here[k]:
+            run.violation({"mode": "process-history", "workload": k},
+                          f"bytes of workload {k} in this process (after other streams were written and parsed) differ from the same workload alone in a fresh process", {"workload": k})
     return run.finish({
         "states": states, "transitions": trans, "traces_validated_against_impl": runs, "samples": samples, "exhaustive": False,
         "two_way_schedules": len(s2), "three_way_schedules": len(s3), "runs": runs,
